@@ -72,7 +72,7 @@ func witness(c *rig.Ctx, ops [][]byte) {
 		op := ops[i]
 		for fl := 0; fl < 16; fl++ {
 			for rep := 0; rep < reps; rep++ {
-				for _, target := range []uint16{0xff01, 0xff04} {
+				for _, target := range []uint16{0xff01, 0xff04, 0xff46} {
 					regs, code := gen(r, op, uint8(fl)<<4, regions[0])
 					// the stack pointer variants put the low byte, the high byte, or neither on the target
 					sp := regs.SP
@@ -113,6 +113,14 @@ func witness(c *rig.Ctx, ops [][]byte) {
 					})
 					nm := name(code)
 					c.Count("witnessed_instructions", 1)
+					if !m.CPU.XAtBoundary() {
+						c.Violate(nm+"-still-in-flight", fmt.Sprintf("%s (F=%02X, pointer at %04X, SP=%04X): the instruction has not finished after its %d documented machine cycles", nm, regs.F, target, regs.SP, pred.Cycles), map[string]any{"code": fmt.Sprintf("% X", code), "regs": regs})
+					}
+					if target == 0xff46 {
+						// (no per-cycle witness for the DMA register: only that the instruction's
+						// other accesses are not delayed by a store to it)
+						continue
+					}
 					if len(want) == 0 {
 						c.Count("witnessed_instructions_without_store", 1)
 					}
@@ -295,7 +303,7 @@ func debugTwin(c *rig.Ctx) {
 func programs(c *rig.Ctx) {
 	c.Require("program_instructions", "program_key_events")
 	c.Part("programs", c.N(200, 3000), func(i int64, r *rig.Rng) {
-		p := prog.Generate(r, prog.Options{OAMFocus: i%2 == 0, Hardware: i%3 == 0, MBCWrites: i%5 == 0, CartType: -1, Stops: true})
+		p := prog.Generate(r, prog.Options{OAMFocus: i%2 == 0, Hardware: i%3 == 0, MBCWrites: i%5 == 0, CartType: -1, Stops: true, Interrupts: i%4 == 1})
 		m := rig.MustNew(p.ROM, rig.Opts{})
 		f := lockstep.New(m)
 		f.ThroughStop = true
